@@ -412,7 +412,7 @@ Section WithTable.
         let '(src, ms, _) := extract_mods (g 3) [] in
         let ins :=
           match (if has4 then g 4 else []) with
-          | _ :: _ as i => i
+          | (_ :: _) as i => i
           | [] => if mem_b (g 1) (pe_insvars E) then [] else k_static
           end in
         Some (CLeaf (NCtx (g 1) src (g 2) ins (is_static src || force) ms))
@@ -618,8 +618,14 @@ Section WithTable.
       end
     end.
 
+  (* cutComments, cutFmt: with the expressions of the table (Model/Preproc.v is the same clean-up
+     written out by hand for the pinned expressions; PreprocProofs.v is about that one) *)
+  Definition preprocess_re (keep_fmt : bool) (src : bytes) : bytes :=
+    let s1 := delete_all (t_reCutComments T) src in
+    if keep_fmt then s1 else trim_b [" "; x09; x0a] (delete_all (t_reCutFmt T) s1).
+
   Definition parse (keep_fmt : bool) (src : bytes) : presult :=
-    parse_clean (preprocess keep_fmt src).
+    parse_clean (preprocess_re keep_fmt src).
 
   (* the classification the nesting model (ParserSkel) is stated over, read off this parser *)
   Definition classify (ctlb : bytes) : tag :=
